@@ -77,7 +77,7 @@ def recipes(draw):
                     enlarge=draw(st.sampled_from([1.0, 1.1, 1.7, 3.0])))
     d = draw(st.integers(2, 4))
     fam = draw(st.sampled_from(['clusters', 'clusters', 'arc', 'face',
-                                'banana', 'wrapped']))
+                                'banana', 'wrapped', 'uneven']))
     n = draw(st.integers(80, 300))
     spec = dict(d=d, n=n, family=fam, seed=draw(st.integers(0, 2 ** 32 - 1)),
                 ratio=draw(st.sampled_from([1.0, 3.0, 10.0])),
@@ -88,6 +88,13 @@ def recipes(draw):
                     weights=[1.0] * k)
     if fam in ('face', 'wrapped'):
         spec.update(nface=draw(st.integers(1, 2)), offset=1e-3)
+    if fam == 'uneven':
+        # members of very different volume (a member holding well below one
+        # percent of the union): the per-member allocation of proposals
+        spec.update(family='clusters', k=2, sep=draw(st.sampled_from(
+            [0.25, 0.4])), weights=[1.0, 1.0], ratio=1.0, scale=0.08,
+            small=draw(st.sampled_from([0.04, 0.07, 0.12])))
+        kind = 'Union'
     r = dict(cls=kind, pts=spec, seed=draw(st.integers(0, 2 ** 32 - 1)),
              enlarge=draw(st.sampled_from([1.2, 1.5, 2.0])),
              mode=draw(st.sampled_from(['serial', 'serial', 'roundtrip'])))
@@ -96,6 +103,10 @@ def recipes(draw):
         r['unit'] = draw(st.booleans())
         r['npm'] = d + draw(st.integers(1, 10))
         r['ops'] = ['split'] * draw(st.integers(1, 6))
+        if 'small' in spec:
+            r['ops'] = ['split']
+            r['enlarge'] = 1.2
+            r['mode'] = 'serial'
         r['ns'] = [1, 1, 1]
     else:
         r['enlarge'] = draw(st.sampled_from([1.2, 1.5]))
@@ -394,6 +405,43 @@ def run_case(r):
                 res.viol('volume-miscalibrated', tag, 'z=%.1f then %.1f: '
                          'reported %.6g, Monte Carlo %.6g' % (
                              z, z2, info2['v_rep'], info2['v_mc']))
+        # focused test for members holding < 1.5 % of the union: their share
+        # of the proposals against the share of the rejection-sampling
+        # reference, with a sample large enough to see a 20 % deficit
+        if cls == 'Union' and 'small' in r['pts'] and len(members) >= 2 \
+                and not res.violations:
+            lv = np.array([float(m.log_v) for m in members])
+            share = np.exp(lv - np.max(lv))
+            share = share / share.sum()
+            k = int(np.argmin(share))
+            if share[k] < 0.015:
+                res.cls('tiny_member')
+
+                def frac(scale, seed):
+                    S = np.asarray(b.sample(300000 * scale))
+                    lo, hi = region_box(members, d, unit)
+                    R, n_draw, n_acc = rejection_sample(
+                        lambda X: np.asarray(b.contains(X)), lo, hi,
+                        300000 * scale, np.random.default_rng(seed),
+                        max_draws=40_000_000 * scale)
+                    if n_acc < 100000:
+                        return None
+                    fs = np.asarray(members[k].contains(S))
+                    fr = np.asarray(members[k].contains(R))
+                    p1, p2 = fs.mean(), fr.mean()
+                    pp = (fs.sum() + fr.sum()) / (len(fs) + len(fr))
+                    se = np.sqrt(pp * (1 - pp) * (1 / len(fs) + 1 / len(fr)))
+                    return (p1 - p2) / max(se, 1e-300), p1, p2
+                res.count('tiny-member-tests')
+                out1 = frac(1, r['seed'] + 5)
+                if out1 is not None and abs(out1[0]) > 6.1:
+                    out2 = frac(3, r['seed'] + 6)
+                    if out2 is not None and abs(out2[0]) > 6.1:
+                        res.viol('non-uniform', tag + ':tiny-member',
+                                 'member holding %.3f %% of the region gets '
+                                 '%.4f %% of the proposals (z=%.1f then '
+                                 '%.1f)' % (100 * out2[2], 100 * out2[1],
+                                            out1[0], out2[0]))
         if info['outside_members']:
             res.viol('sample-outside-members', tag, '%d samples in no member'
                      % info['outside_members'])
